@@ -126,7 +126,7 @@ def call_outcome(P, cn):
                     return "ok"
                 if v in ERRV:
                     return "err"
-        if sub is not None and tgt is not None and P.gnode(qi) == tgt and P.gnode(pi)[0] == sub.id:
+        if qi is not None and sub is not None and tgt is not None and P.gnode(qi) == tgt and P.gnode(pi)[0] == sub.id:
             tag = dict(P.nodes[qi][1]).get(dslot)
             if tag:
                 if tag[0] in OKV:
